@@ -583,14 +583,17 @@ class WalletKey(object):
 
         :return WalletKey:
         """
-        pub_key = self
+        pub_key = WalletKey(self.key_id, self.session)
         pub_key.is_private = False
         pub_key.key_private = None
-        if self.key():
-            pub_key.wif = self.key().wif()
-        if self._hdkey_object:
-            self._hdkey_object = pub_key._hdkey_object.public()
-        self._dbkey = None
+        hdkey = pub_key.key()
+        if hdkey:
+            if isinstance(hdkey, list):
+                pub_key._hdkey_object = [k.public() for k in hdkey]
+            else:
+                pub_key.wif = hdkey.wif()
+                pub_key._hdkey_object = hdkey.public()
+        pub_key._dbkey = None
         return pub_key
 
     def as_dict(self, include_private=False):
